@@ -48,6 +48,8 @@ func c12Outs(tag string) []abs.OutEntry {
 				add(t, f, "thunkerr")
 			}
 		}
+	case "uostar":
+		out = append(out, abs.OutEntry{T: "Q", F: "uo", Src: "*", O: abs.Outcome{K: "val", Rt: "*"}})
 	case "err":
 		add("Q", "a", "err")
 		add("Q", "nn", "nil")
